@@ -110,3 +110,25 @@ def compare_export(expected, files, reported):
             k = next((i for i in range(min(len(pcm), len(w.data))) if pcm[i] != w.data[i]), min(len(pcm), len(w.data)))
             errs.append(f"{p}: pcm differs (expected {len(pcm)} bytes, got {len(w.data)}, first difference at byte {k})")
     return errs
+
+
+def channel_map(files, pcms):
+    """files: {relpath: wav bytes}; pcms: {sample key: pcm bytes (16-bit LE mono)}.
+    Returns (occurrences, errors): occurrences[sample key] = [(relpath, channel index, n_channels)...];
+    errors: invalid wavs / channels that hold no known sample."""
+    from mcv.ref import riff
+    occ = {k: [] for k in pcms}
+    errs = []
+    for path in sorted(files):
+        w = riff.validate(files[path])
+        if w.errors:
+            errs.append(f"{path}: invalid wav: {w.errors[:2]}")
+            continue
+        chans = riff.split_channels(w.data, w.fmt["channels"])
+        for ci, c in enumerate(chans):
+            hit = [k for k, p in pcms.items() if len(c) >= len(p) and c[:len(p)] == p and len(p) > 0]
+            if not hit:
+                errs.append(f"{path}: channel {ci} ({len(c)} bytes) holds no sample of the directory")
+            for k in hit:
+                occ[k].append((path, ci, w.fmt["channels"]))
+    return occ, errs
